@@ -541,6 +541,203 @@ fn vector_attack(env: &Env, src: &mut Src<'_>) -> CaseResult {
     Ok(CaseOk { nontrivial: true, digest: digest(&(n, active, corrupt, &key.gate, key.dest, record, shape, consistent)), labels, sample: cj })
 }
 
+// ---------------------------------------------------------------------------------------------
+// (d) the pseudonym computation itself (`eval_dy_prf`) in the MAC context, one additive error
+// ---------------------------------------------------------------------------------------------
+
+struct POut {
+    res: [Option<Result<Vec<Vec<u64>>, String>>; 3],
+    catalogue: std::collections::BTreeMap<ChannelKey, Vec<usize>>,
+    fired: bool,
+    timed_out: bool,
+}
+
+macro_rules! prf_world {
+    ($name:ident, $n:expr) => {
+        fn $name(seed: u64, key: Fp25519, xs: &[Vec<Fp25519>], tamper: Option<Tamper>, honest_mask: u8) -> POut {
+            use crate::{protocol::ipa_prf::prf_eval::eval_dy_prf, secret_sharing::{SharedValueArray, Vectorizable, replicated::ReplicatedSecretSharing}};
+            const N: usize = $n;
+            type XS = Replicated<Fp25519, N>;
+            block_on(async {
+                let icpt = Interceptor::new(tamper);
+                let mut wc = TestWorldConfig::default();
+                wc.seed = seed;
+                wc.stream_interceptor = icpt.dynamic();
+                wc.timeout = None;
+                let world = TestWorld::new_with(&wc);
+                let mut rng = StdRng::seed_from_u64(seed ^ 0x9f);
+                let ks: [Replicated<Fp25519>; 3] = key.share_with(&mut rng);
+                let mut inputs: [Vec<XS>; 3] = [vec![], vec![], vec![]];
+                for x in xs {
+                    let lanes: Vec<[Replicated<Fp25519>; 3]> = x.iter().map(|v| (*v).share_with(&mut rng)).collect();
+                    for h in 0..3 {
+                        let l = <Fp25519 as Vectorizable<N>>::Array::from_fn(|i| lanes[i][h].left());
+                        let r = <Fp25519 as Vectorizable<N>>::Array::from_fn(|i| lanes[i][h].right());
+                        inputs[h].push(Replicated::new_arr(l, r));
+                    }
+                }
+                let ctxs = world.malicious_contexts();
+                let mut futs = futures::stream::FuturesUnordered::new();
+                for (h, ((ctx, inp), k)) in ctxs.into_iter().zip(inputs).zip(ks).enumerate() {
+                    futs.push(async move {
+                        let body = async move {
+                            let n = inp.len();
+                            let ctx = ctx.set_total_records(TotalRecords::specified(n)?);
+                            let v = ctx.validator::<Fp25519>();
+                            let m = v.context();
+                            let futs = inp.into_iter().enumerate().map(|(i, x)| {
+                                let m = m.clone();
+                                let k = k.clone();
+                                async move { eval_dy_prf::<_, N>(m, RecordId::from(i), &k, x).await.map(|a| a.to_vec()) }
+                            });
+                            let r = m.try_join(futs).await;
+                            drop(v);
+                            r
+                        };
+                        let r = futures::FutureExt::catch_unwind(std::panic::AssertUnwindSafe(body)).await;
+                        (h, r)
+                    });
+                }
+                let mut res: [Option<Result<Vec<Vec<u64>>, String>>; 3] = [None, None, None];
+                let deadline = tokio::time::Instant::now() + Duration::from_secs(if icpt.tamper.is_some() { 6 } else { 120 });
+                let mut timed_out = false;
+                loop {
+                    match tokio::time::timeout_at(deadline, futs.next()).await {
+                        Ok(Some((h, r))) => {
+                            let failed = !matches!(r, Ok(Ok(_)));
+                            res[h] = Some(match r {
+                                Ok(Ok(v)) => Ok(v),
+                                Ok(Err(e)) => Err(format!("{e:?}")),
+                                Err(p) => Err(format!("panic: {}", panic_message(&p))),
+                            });
+                            if failed && (honest_mask >> h) & 1 == 1 {
+                                break;
+                            }
+                        }
+                        Ok(None) => break,
+                        Err(_) => {
+                            timed_out = true;
+                            break;
+                        }
+                    }
+                }
+                let _ = catch(move || drop(futs));
+                let st = icpt.state.lock().unwrap();
+                let out = POut { res, catalogue: st.catalogue.clone(), fired: st.fired && st.changed, timed_out };
+                drop(st);
+                let _ = catch(move || drop(world));
+                out
+            })
+        }
+    };
+}
+prf_world!(prf_world_1, 1);
+prf_world!(prf_world_16, 16);
+
+fn classify_prf_gate(g: &str) -> &'static str {
+    // openings made by the protocol itself (plain sharing of g^r; MAC-ed sharing of z) live under
+    // the protocol step, the validator's own opening of r under its validate step
+    if g.contains("validate") {
+        if g.contains("propagate") {
+            "propagate-u-w"
+        } else if g.contains("reveal_r") {
+            "validator-reveal-r"
+        } else if g.contains("check_zero") {
+            "check-zero"
+        } else {
+            "other"
+        }
+    } else if g.ends_with("reveal_r") {
+        "open-plain-g^r"
+    } else if g.ends_with("revealz") {
+        "open-z"
+    } else if g.contains("upgrade_y") {
+        "upgrade-y"
+    } else if g.contains("upgrade_mask") {
+        "upgrade-mask"
+    } else if g.contains("mult_mask_with_p_r_f_input") {
+        if g.contains("duplicate") { "multiply-rx-twin" } else { "multiply" }
+    } else {
+        "other"
+    }
+}
+
+fn prf_attack(_env: &Env, src: &mut Src<'_>) -> CaseResult {
+    use crate::{ff::curve_points::RP25519, secret_sharing::SharedValue};
+    let wide = src.bool();
+    let lanes = if wide { 16 } else { 1 };
+    let n = src.urange(1, if wide { 3 } else { 6 });
+    let seed = src.seed();
+    let mut rng = StdRng::seed_from_u64(seed);
+    let key = Fp25519::genv(&mut rng, 5);
+    let xs: Vec<Vec<Fp25519>> = (0..n).map(|_| (0..lanes).map(|_| Fp25519::genv(&mut rng, src.below(6))).collect()).collect();
+    let run = |t: Option<Tamper>, mask: u8| if wide { prf_world_16(seed, key, &xs, t, mask) } else { prf_world_1(seed, key, &xs, t, mask) };
+    let pj = json!({"lanes": lanes, "records": n, "seed": seed.to_string()});
+    let mut labels = vec![format!("lanes:{lanes}")];
+    let expected: Vec<Vec<u64>> = xs.iter().map(|x| x.iter().map(|v| u64::from(RP25519::from((*v + key).invert()))).collect()).collect();
+    let honest = run(None, 0b111);
+    if honest.timed_out {
+        return Ok(CaseOk::new(false, &0u8, serde_json::Value::Null).label("inconclusive:timeout"));
+    }
+    for h in 0..3 {
+        match &honest.res[h] {
+            Some(Ok(v)) if *v == expected => {}
+            Some(Ok(_)) => return Err(violation("honest-wrong-pseudonym", format!("helper {h} computed a pseudonym different from g^(1/(x+k))"), pj)),
+            other => return Err(violation("honest-rejected", format!("helper {h} failed an honest pseudonym computation: {other:?}").chars().take(300).collect::<String>(), pj)),
+        }
+    }
+    let corrupt = src.idx(3);
+    let honest_mask = 0b111 & !(1u8 << corrupt);
+    let chans: Vec<(&ChannelKey, &Vec<usize>)> = honest.catalogue.iter().filter(|(k, _)| k.source == corrupt).collect();
+    let mut classes: Vec<&'static str> = chans.iter().map(|(k, _)| classify_prf_gate(&k.gate)).collect();
+    classes.sort_unstable();
+    classes.dedup();
+    let class = classes[src.idx(classes.len())];
+    let of_class: Vec<(&ChannelKey, &Vec<usize>)> = chans.iter().filter(|(k, _)| classify_prf_gate(&k.gate) == class).copied().collect();
+    let (key_ch, chunks): (&ChannelKey, &Vec<usize>) = of_class[src.idx(of_class.len())];
+    let ordinal = src.idx(chunks.len());
+    let elems = (chunks[ordinal] / 32).max(1);
+    let elem = match src.below(3) {
+        0 => 0,
+        1 => elems - 1,
+        _ => src.idx(elems),
+    };
+    let mut err = [0u8; 32];
+    match src.below(3) {
+        0 => err[0] = 1,
+        1 => err = fp_bytes(Fp25519::ZERO - Fp25519::ONE),
+        _ => err = fp_bytes(Fp25519::genv(&mut rng, 5) + Fp25519::ONE),
+    }
+    if err == [0u8; 32] {
+        err[0] = 2;
+    }
+    let edit = if class == "open-plain-g^r" { Edit::RistrettoAdd { elem, scalar: err } } else { Edit::Fp25519Add { record: elem, lanes_per_record: 1, errors: vec![(0, err)] } };
+    let t = Tamper { key: key_ch.clone(), ordinal, edit };
+    let cj = json!({"plan": pj, "corrupt": corrupt, "gate": key_ch.gate, "dest": key_ch.dest, "ordinal": ordinal, "elem": elem, "class": class, "error": err.iter().map(|b| format!("{b:02x}")).collect::<String>()});
+    labels.push(format!("msg:{class}"));
+    let out = run(Some(t), honest_mask);
+    if !out.fired {
+        return Ok(CaseOk::new(false, &0u8, serde_json::Value::Null).label("edit-not-fired").labels(labels));
+    }
+    let honest_ids: Vec<usize> = (0..3).filter(|h| *h != corrupt).collect();
+    let detected = honest_ids.iter().any(|h| matches!(out.res[*h], Some(Err(_))));
+    let all_honest_ok = honest_ids.iter().all(|h| matches!(out.res[*h], Some(Ok(_))));
+    if detected {
+        labels.push("detected".into());
+    } else if all_honest_ok {
+        let wrong: Vec<usize> = honest_ids.iter().copied().filter(|h| out.res[*h].as_ref().unwrap().as_ref().unwrap() != &expected).collect();
+        return Err(violation(
+            format!("additive-attack-undetected:prf:{class}"),
+            format!("H{} added an error to element {elem} of a {class} message ({} -> H{}); both honest helpers finished the pseudonym computation (wrong pseudonyms on helpers {wrong:?})", corrupt + 1, key_ch.gate, key_ch.dest + 1),
+            cj,
+        ));
+    } else {
+        labels.push("inconclusive:no-honest-verdict".into());
+        return Ok(CaseOk::new(false, &0u8, serde_json::Value::Null).labels(labels));
+    }
+    Ok(CaseOk { nontrivial: true, digest: digest(&(lanes, n, corrupt, &key_ch.gate, key_ch.dest, ordinal, elem, err[0])), labels, sample: cj })
+}
+
 pub fn subs(_env: &Env) -> Vec<Sub> {
     vec![
         Sub::random("attack", 260, 8000, 300_000, attack,
@@ -548,6 +745,9 @@ pub fn subs(_env: &Env) -> Vec<Sub> {
         .shrink_iters(20),
         Sub::random("vector_attack", 300, 6000, 100_000, vector_attack,
             "vectorised MAC shares as in the pseudonym computation (Fp25519 x 16 lanes), 1..6 records, active work {2,4,8}: honest run validates and opens a*b lane by lane; then one helper adds an error *vector* (one lane; +d/-d on two lanes; the same d on all lanes; random on all lanes) to one record of its upgrade, multiply or r*x-twin message - optionally repeating it on the copy of that share it sends in the opening (a consistent lie) - and some honest helper must fail validation or the opening")
+        .shrink_iters(20),
+        Sub::random("prf_attack", 64, 3000, 60_000, prf_attack,
+            "the pseudonym computation itself (eval_dy_prf, 1 or 16 lanes, 1..5 records) in the non-sharded MAC context: honest run yields g^(1/(x+k)) on all helpers; then one helper adds an error to one element of one of its messages, the message class chosen first among {upgrade y, upgrade mask, multiply (+ r*x twin), opening of the plain sharing of g^r (error = a group element, encoding stays valid), opening of z, propagate u/w, the validator's opening of r, check zero}; some honest helper must fail (no 1/|F| allowance: Fp25519 / ristretto255)")
         .shrink_iters(20),
         Sub::exhaustive("fp31_bound", 1, 1, fp31_bound,
             "run-level check: undetected additive attacks on MAC-protected Fp31 traffic stay within a one-sided binomial bound (p0 = 3/31, alpha = 1e-9)"),
